@@ -24,7 +24,7 @@ RULE = ("honest signatures over d, k in {1, 2, n-2, n-1, n//2, n//2+1, leading-z
         "{0, n, n+1}, malformed encodings, over-long digests, the full product of small (r, s, e) on toy curves, a few lines on the "
         "cofactor-4 curve SECP112r2.  Search: EXHAUSTIVE over all d, k in [1, n-1] and e in [0, n-1] on toy prime-order curves "
         "(both generator classes), structured on the 16 cofactor-1 named curves.")
-RULE = RULE + E.COUNT_RULE
+RULE = RULE + E.CALL_RULE + E.COUNT_RULE
 ASSUMPTIONS = ["cofactor-1 curves only (16 of the 17 named curves, toy curves of prime order)",
                "the nonce point has x(kG) < n (otherwise the property claims nothing; such nonces exist on the toy curves with n < p "
                "and are counted in the class histogram)",
@@ -49,6 +49,13 @@ def real_recover(case, sig_rs=None):
     sig = E.wrap_sig(sig, case.get("sigcontainer"))
     fl = E.flag_obj(case)
     pos = case.get("call") == "positional"
+    if case.get("call") == "defaults":
+        # optional arguments omitted: hashfunc=sha1, sigdecode=sigdecode_string, allow_truncate False (with_digest) / True (data)
+        if kind == "recover_digest":
+            vks = VerifyingKey.from_public_key_recovery_with_digest(sig, E.digest_obj(case), cv)
+        else:
+            vks = VerifyingKey.from_public_key_recovery(sig, bytes.fromhex(case["data"]), cv)
+        return [(int(v.pubkey.point.x()), int(v.pubkey.point.y())) for v in vks], vks
     if kind == "recover_digest":
         # documented order: from_public_key_recovery_with_digest(signature, digest, curve, hashfunc=sha1, sigdecode=sigdecode_string,
         #                                                        allow_truncate=False)
@@ -77,8 +84,54 @@ def case_e(case, cv, n):
     return leftmost_bits(dg, bitlen(n))
 
 
+SAME_SIZE = (("NIST256p", "SECP256k1", "BRAINPOOLP256r1"), ("NIST192p", "BRAINPOOLP192r1"), ("SECP160r1", "BRAINPOOLP160r1"),
+             ("NIST224p", "BRAINPOOLP224r1"), ("NIST384p", "BRAINPOOLP384r1"), ("NIST521p", "BRAINPOOLP512r1"), ("SECP112r1", "SECP128r1"))
+
+
+def case_seq(case):
+    """call SEQUENCE on ONE ecdsa.Signature object (low-level API) across generators of different curves and different hash
+    integers: every call must return / raise what the same call on a fresh Signature(r, s) does"""
+    from ecdsa.ecdsa import Signature
+    r, s = case["r"], case["s"]
+
+    def mk(step):
+        spec, e = step
+        gen = E.resolve_curve(spec)[0].generator
+        return lambda sg: [(int(pk.point.x()), int(pk.point.y())) for pk in sg.recover_public_keys(e, gen)]
+    return E.run_sequence(Signature(r, s), lambda: Signature(r, s), [mk(st) for st in case["steps"]])
+
+
+def seq_cases(rng, quick):
+    """[(tag, case)]: an honest signature on curve A of a same-size family; the Signature object is then used with the generator
+    of B, A, B, A (other hash integers in between), and in the opposite order"""
+    out = []
+    by_name = {c.name: c for c in E.named_curves()}
+    fams = [[E.curve_spec(by_name[nm]) for nm in fam] for fam in SAME_SIZE]
+    toys = E.get_fixed_toys()
+    fams += [[E.curve_spec(toys[i], "j"), E.curve_spec(toys[j], "j")] for i in range(len(toys)) for j in range(len(toys)) if i != j][:6]
+    for fam in fams:
+        for rep in range(2 if quick else 8):
+            A = fam[rep % len(fam)]
+            others = [x for x in fam if x is not A]
+            cvA, cpA, tA = E.resolve_curve(A)
+            p, a, G, n = cpA
+            d, k, e = rng.randrange(1, n), rng.randrange(1, n), rng.randrange(n)
+            sg = E.ref_sign(cpA, d, e, k) if tA is None else E.ref_sign(cpA, d, e, k)
+            if sg[0] == "rszero":
+                continue
+            r, s = sg[1], sg[2]
+            B = others[rep % len(others)]
+            e2 = rng.randrange(n)
+            for tag, steps in (("A,B,A,B", [[A, e], [B, e], [A, e], [B, e2], [A, e2]]), ("B,A,B", [[B, e], [A, e], [B, e], [A, e2]]),
+                               ("A,A'(other e),A", [[A, e], [A, e2], [A, e]])):
+                out.append(("sequence on one Signature object across generators: " + tag, {"kind": "seq", "r": r, "s": s, "steps": steps}))
+    return out
+
+
 def run_case(case):
     """search: an HONEST signature (made here from d, k with the independent arithmetic) -> recovery.  None if the property holds"""
+    if case["kind"] == "seq":
+        return case_seq(case)
     cv, cp, t = E.resolve_curve(case["curve"])
     p, a, G, n = cp
     d, k = case["d"], case["k"]
@@ -297,6 +350,11 @@ def all_cases(ctx):
     honest += E.container_variants(rng, [x for x in wr if x[1]["kind"] == "recover_digest"], 0.3)
     # positional calls (documented parameter order), non-bool truncation flags, signature in a non-bytes container
     honest += [(tag + " [positional]", dict(case, call="positional")) for tag, case in wr if rng.random() < 0.3]
+    # documented defaults (string codec, sha1, allow_truncate False for the digest wrapper / True for the data wrapper)
+    for tag, case in wr:
+        if case.get("dec") == "string" and case.get("hash", "sha1") == "sha1" and rng.random() < 0.5:
+            honest.append((tag + " [default arguments]",
+                           dict(case, call="defaults", allow_truncate=E.DEFAULT_ALLOW["recover_digest" if case["kind"] == "recover_digest" else "recover_data"])))
     honest += E.flag_variants(rng, wr, 0.2)
     honest += E.container_variants(rng, [x for x in wr if "sig" in x[1]], 0.2, field="sigcontainer", needs="dec", what="signature")
     ctx._c14_cases = (honest, forged)
@@ -389,8 +447,8 @@ def search(ctx):
                     ctx.hist("search.class", "toy-%s exhaustive %s" % (mode, kk), v)
     # (2) structured honest cases on every cofactor-1 curve (+ corpus witnesses F9, F10)
     with E.timed(ctx, "search: structured"):
-        E.par_search(ctx, run_case, honest)
+        E.par_search(ctx, run_case, honest + seq_cases(rng, q))
 
 
 def replay(rec):
-    return E.replay_record(rec, run_case, lambda c: c.get("kind") in ("recover", "recover_digest", "recover_data") and "curve" in c)
+    return E.replay_record(rec, run_case, lambda c: c.get("kind") in ("recover", "recover_digest", "recover_data") and "curve" in c or c.get("kind") == "seq")
